@@ -126,3 +126,24 @@ pub fn idx(sel: u16, len: usize) -> usize {
 pub fn to_f32_grid(m: &Mat) -> Mat {
     m.map(|x| x as f32 as f64)
 }
+
+/// "arbitrary numeric label values": a shuffled base set of five distinct values, taken as it is,
+/// rescaled exactly by 2^e (down to ~1e-21, up to ~1e12), or replaced by five consecutive
+/// floating-point numbers (labels one ulp apart). All five values are pairwise distinct.
+pub fn label_values(base: [f64; 5]) -> BoxedStrategy<Vec<f64>> {
+    (Just(base.to_vec()).prop_shuffle(), prop_oneof![3 => Just((0u8, 0i32)), 1 => (-70i32..=40).prop_map(|e| (1u8, e)), 1 => (0i32..4).prop_map(|b| (2u8, b))])
+        .prop_map(|(mut vals, kind)| {
+            match kind {
+                (1, e) => vals.iter_mut().for_each(|v| *v *= 2f64.powi(e)),
+                (2, b) => {
+                    let start = [0.3f64, 1.0, -7.5, 1e10][b as usize];
+                    for (c, v) in vals.iter_mut().enumerate() {
+                        *v = f64::from_bits(start.to_bits() + c as u64);
+                    }
+                }
+                _ => {}
+            }
+            vals
+        })
+        .boxed()
+}
